@@ -1,7 +1,7 @@
 (* Datalog/Rewrite.v - rules with do-transforms and the per-stratum rewriting of
    rewrite/rewrite.go: Rewrite (:36), isSingleAtomPremise (:26), nameGen /
    freshPredicateName (:65-77), makeHead (:79), getVars (:94).
-   Models the code AFTER fix F2 (pointer receiver: the counter advances) and fix N40
+   Models the code AFTER fix F2 (pointer receiver: the counter advances) and fix F2c
    (an atom with a repeated variable or a function application is not a "single atom
    premise"); the pre-fix behaviour is kept as a flag for the refutation witnesses.
 
@@ -77,7 +77,7 @@ Fixpoint distinct_simple (wild seen : list Z) (ts : list term) : bool :=
   | TApp _ _ :: _ => false
   end.
 
-(* strict = after fix N40; before it any single atom qualified *)
+(* strict = after fix F2c; before it any single atom qualified *)
 Definition single_atom_premise (strict : bool) (wild : list Z) (b : list premise) : bool :=
   match b with
   | [PAtom a] => if strict then distinct_simple wild [] (aargs a) else true
@@ -113,7 +113,7 @@ Definition body_cols (wild : list Z) (b : list premise) : list Z :=
 (* ---- Rewrite :36. ord = the column order chosen by makeHead :79 (Go sorts the
    variables by the hash of their names; the order is not observable - the internal
    relation is written and read through the same atom - and is an explicit argument).
-   adv = the counter advances (fix F2); strict = fix N40. *)
+   adv = the counter advances (fix F2); strict = fix F2c. *)
 Fixpoint rewrite_go (adv strict : bool) (ord : list Z -> list Z) (n : Z) (rs : list rule) : list rule :=
   match rs with
   | [] => []
@@ -136,8 +136,8 @@ Fixpoint rewrite_go (adv strict : bool) (ord : list Z -> list Z) (n : Z) (rs : l
 Definition rewrite (ord : list Z -> list Z) (rs : list rule) : list rule := rewrite_go true true ord 0 rs.
 (* the code before fix F2: every generated name carries the number 1 *)
 Definition rewrite_F2 (ord : list Z -> list Z) (rs : list rule) : list rule := rewrite_go false true ord 0 rs.
-(* the code before fix N40 *)
-Definition rewrite_N40 (ord : list Z -> list Z) (rs : list rule) : list rule := rewrite_go true false ord 0 rs.
+(* the code before fix F2c *)
+Definition rewrite_F2c (ord : list Z -> list Z) (rs : list rule) : list rule := rewrite_go true false ord 0 rs.
 
 (* the names generated by one call, in order *)
 Fixpoint fresh_ids (adv strict : bool) (n : Z) (rs : list rule) : list Z :=
